@@ -221,7 +221,10 @@ class VGen:
         """a custom constant (raw val.Extension) of the copyable type t with an arbitrary JSON payload"""
         r = self.r
         pay = r.choice([None, 0, -3, 2.5, "", "päy", [], [1, None, "x"], {}, {"a": None, "b": [1, {"c": False}]},
-                        True, {"v": {"v": None}}])
+                        True, {"v": {"v": None}},
+                        # (user data may spell the format's own field names, present and past)
+                        {"extension_reqs": ["a"], "runtime_reqs": ["b"]}, [{"extension_reqs": 1}],
+                        {"input_extensions": None, "t": "Q", "op": "Module", "parent": 0}])
         return ["extv", r.choice(["MyConst", "c", "Ünï", "ConstInt2"]), t, pay,
                 r.sample(["prelude", "verif.test", "x.y"], r.randint(0, 2))]
 
